@@ -414,7 +414,7 @@ def pipeIds (l : List DFile) : String :=
 
 def pipeShowResult : Except Err (List DFile) → String
   | .ok l => s!"ok:{pipeIds l}"
-  | .error e => s!"err:{e.code}"
+  | .error e => if e.code = Pipe.codeEOF then "err:2:eof" else s!"err:{e.code}"
 
 /-- depth-first search over internal labels for a state satisfying `goal` -/
 def pipeSearch (A : List Answer) (ls : List Pipe.Label) (goal : Pipe.PState → Bool) : Nat → Pipe.PState → Option Pipe.PState
@@ -451,6 +451,7 @@ def pipeEvent (A : List Answer) (s : Pipe.PState) (ev : String) : Except String 
     | none => .error "BAD S+"
   else if k.startsWith "S-" then
     if v == "ok" then step s .reqSend "DIFF Send returned without being called"
+    else if v == "eof" then step s .reqSendEOF "DIFF Send returned io.EOF on a live stream"
     else if v == "ctx" then
       match pipeForceCancel A s with
       | some s' => step s' (.reqSendFault ⟨Pipe.codeCanceled⟩) "DIFF Send returned without being called"
@@ -468,6 +469,7 @@ def pipeEvent (A : List Answer) (s : Pipe.PState) (ev : String) : Except String 
       else step s .rcvTake "VIOL Recv called before the corresponding request was sent (semaphore)"
   else if k == "R-" then
     if v == "eof" then step s .closeRecvRet "DIFF EOF outside close()"
+    else if v.startsWith "st" then step s .rcvStatus "DIFF Recv returned the stream's status out of order"
     else if v == "ctx" then
       match pipeForceCancel A s with
       | some s' => step s' (.rcvFault ⟨Pipe.codeCanceled⟩ true) "DIFF Recv returned without being called"
@@ -513,6 +515,10 @@ def pipeEvent (A : List Answer) (s : Pipe.PState) (ev : String) : Except String 
         match pipeSearch A pipeInternal (fun t => t.mpc = .returned) 12 s with
         | some t => .error s!"DIFF model returns {(t.result.map pipeShowResult).getD "nothing"}"
         | none => .error "VIOL the function returned while a goroutine of it cannot have exited (wg.Wait)"
+  else if k == "X" then
+    match v.toNat? with
+    | some c => step s (.streamEnd c) "DIFF the stream ended twice"
+    | none => .error "BAD X"
   else if ev == "CS" then step s .closeSend "DIFF CloseSend before the call returned"
   else if ev == "CL" then
     let s1 := if s.mpc = .closing1 then Pipe.step true A s .closeSkipRecv else some s
@@ -535,7 +541,10 @@ def handlePipe (inF outF : List String) : String :=
     | [] =>
       if s.mpc = .closed then
         let fault := if s.streamFault then "fault" else "clean"
-        let res := match s.result with | some (.ok _) => "ok" | _ => "err"
+        let res := match s.result with
+          | some (.ok _) => "ok"
+          | some (.error e) => if e.code = Pipe.codeEOF ∧ s.ended.isSome then "eofmask" else "err"
+          | none => "err"
         "OK" ++ (if A.length ≥ 2 then " nt" else "") ++ s!" b=pipe-{res}-{fault}"
       else "DIFF the log ends before close() finished"
     | ev :: rest =>
